@@ -310,6 +310,9 @@ type XportPlan struct {
 	ServerEvents []ServerEvent `json:"server_events,omitempty"`
 	// Exhaust: run the wire-id exhaustion plan on upstream 0.
 	Exhaust int `json:"exhaust,omitempty"`
+	// ExhaustClose: the exchanges that take the connection's last ids are
+	// answered seconds late, and the upstream is closed while they wait (C18).
+	ExhaustClose bool `json:"exhaust_close,omitempty"`
 }
 
 type XCall struct {
